@@ -26,9 +26,9 @@ Variable known : str -> bool.
 Variable hparse : str -> list str -> option H.
 Variable hunknown : str -> list str -> H.
 
-Definition entity_toks (label custom alias : bool) (bases : list str) (forms : list hform) (cls : str) (secs : list str)
+Definition entity_toks (label custom alias : bool) (bases : list str) (forms : list hform) (hidden : bool) (cls : str) (secs : list str)
                        (items : list (nat * item vt)) (res : resources rt) : list tok :=
-  head_toks custom alias bases forms cls secs
+  head_toks custom alias bases forms hidden cls secs
   ++ TNl :: body_toks vt vt_text vt_is_bool vt_is_flags io_text dec cfg rt rt_text label custom items res.
 
 Definition entity_read (ts : list tok) : option (head H * body vt rt * list tok) :=
